@@ -125,7 +125,9 @@ pub fn proto_cases(spec: &str, w: &mut dyn std::io::Write) {
     }
 }
 
-pub const QUICK_SPECS: &[&str] = &["pb300,pb400,c,pb100", "pb500,c,u0,d0,c", "g66000,pb10,c"];
+// the 4th history: a payload-less update (its frame shares the byte range of an OLDER frame), a
+// reopen (cached layout state recomputed from the table), then commits that add no payload bytes
+pub const QUICK_SPECS: &[&str] = &["pb300,pb400,c,pb100", "pb500,c,u0,d0,c", "g66000,pb10,c", "pb300,pb400,c,u0,c,r,d2,c,pb50"];
 
 pub fn run(seed: u64, n: usize, tier: &str, w: &mut dyn std::io::Write) {
     let mut r = Rng::new(seed ^ 0xC02);
